@@ -194,7 +194,10 @@ def PState.mkVPtr (s : PState) (id : Nat) : Except CallErr VPtr :=
 
 /-- `virtual_ptr<Obj, Policy>::final(obj)` -/
 def PState.mkFinal (s : PState) (id : Nat) : Except CallErr VPtr :=
-  if s.cfg.checks && id != s.staticId then .error (.methodTable id)
+  -- without a static class (`staticId = 0`) no object's dynamic type is "the static type"
+  if s.staticId == 0 then
+    (if s.cfg.checks then .error (.methodTable id) else .error (.fault "final without a static class"))
+  else if s.cfg.checks && id != s.staticId then .error (.methodTable id)
   else if s.cfg.indirect then .ok { obj := id, ref := .cell (s.cfg.proj s.staticId) }
   else .ok { obj := id, ref := .direct (s.cellSlot (s.cfg.proj s.staticId)) s.epoch }
 
